@@ -1,8 +1,102 @@
 package main
 
+import (
+	"go/ast"
+	"go/token"
+)
+
 // regenerated facts of the "stores" family (C07 C08 C09 C10 C15)
 
 func init() { families = append(families, factsStores) }
 
+// storesConstText returns the source text of the value of a package-level constant.
+func storesConstText(f *ast.File, name string) string {
+	if f == nil {
+		return "unknown"
+	}
+	for _, d := range f.Decls {
+		gd, ok := d.(*ast.GenDecl)
+		if !ok || gd.Tok != token.CONST {
+			continue
+		}
+		for _, sp := range gd.Specs {
+			vs, ok := sp.(*ast.ValueSpec)
+			if !ok {
+				continue
+			}
+			for i, n := range vs.Names {
+				if n.Name == name && i < len(vs.Values) {
+					return text(vs.Values[i])
+				}
+			}
+		}
+	}
+	return "unknown"
+}
+
+// storesKeyValue returns the text of the value of `key:` in the first composite literal of body that has it.
+func storesKeyValue(body ast.Node, key string) string {
+	res := "unknown"
+	if body == nil {
+		return res
+	}
+	done := false
+	ast.Inspect(body, func(n ast.Node) bool {
+		if done {
+			return false
+		}
+		if kv, ok := n.(*ast.KeyValueExpr); ok {
+			if id, ok := kv.Key.(*ast.Ident); ok && id.Name == key {
+				res, done = text(kv.Value), true
+				return false
+			}
+		}
+		return true
+	})
+	return res
+}
+
+// storesIfConds lists the conditions of all if statements of body, in source order.
+func storesIfConds(body ast.Node) []string {
+	var r []string
+	if body == nil {
+		return r
+	}
+	ast.Inspect(body, func(n ast.Node) bool {
+		if s, ok := n.(*ast.IfStmt); ok {
+			r = append(r, text(s.Cond))
+		}
+		return true
+	})
+	return r
+}
+
+func storesCallArgs(cs []*ast.CallExpr) []string {
+	var r []string
+	for _, c := range cs {
+		s := ""
+		for i, a := range c.Args {
+			if i > 0 {
+				s += ", "
+			}
+			s += text(a)
+		}
+		r = append(r, s)
+	}
+	return r
+}
+
 func factsStores() {
+	// ---- C15
+	bucket := parse("pkg/store/bucket.go")
+	ds := parse("pkg/compact/downsample/downsample.go")
+	emitStr("storesBlockSetResolutions", "pkg/store/bucket.go newBucketBlockSet: the resolutions of the levels, in order",
+		storesKeyValue(body(fn(bucket, "", "newBucketBlockSet")), "resolutions"))
+	emitList("storesResLevels", "pkg/compact/downsample/downsample.go: ResLevel0, ResLevel1, ResLevel2",
+		[]string{storesConstText(ds, "ResLevel0"), storesConstText(ds, "ResLevel1"), storesConstText(ds, "ResLevel2")})
+	getFor := fn(bucket, "bucketBlockSet", "getFor")
+	emitList("storesGetForConds", "pkg/store/bucket.go bucketBlockSet.getFor: conditions of its if statements, in order",
+		storesIfConds(body(getFor)))
+	emitList("storesGetForRecursion", "pkg/store/bucket.go bucketBlockSet.getFor: arguments of the recursive calls, in order",
+		storesCallArgs(calls(body(getFor), "getFor")))
 }
